@@ -2,6 +2,7 @@ package checks
 
 import (
 	"bytes"
+	"errors"
 	"fmt"
 	"io"
 	"os"
@@ -21,15 +22,20 @@ import (
 // bound, for every reader script of a bounded family.
 
 type c11Case struct {
-	Src    string        `json:"src"`
-	Script []impl.Answer `json:"script"`
-	API    string        `json:"api"`    // parse | interpret | unmarshal
-	TokBuf int           `json:"tokbuf"` // 0 = as in the source
-	Bound  int           `json:"bound"`  // preemption bound; -1: all interleavings (state-key pruning)
+	Src        string        `json:"src"`
+	Script     []impl.Answer `json:"script"`
+	API        string        `json:"api"`                   // parse | interpret | unmarshal
+	TokBuf     int           `json:"tokbuf"`                // 0 = as in the source
+	Bound      int           `json:"bound"`                 // preemption bound; -1: all interleavings (state-key pruning)
+	CloseFails bool          `json:"close_fails,omitempty"` // the input's Close returns an error
 }
 
 func (c *c11Case) Key() string {
-	return fmt.Sprintf("%q|%v|%s|%d|%d", c.Src, c.Script, c.API, c.TokBuf, c.Bound)
+	k := fmt.Sprintf("%q|%v|%s|%d|%d", c.Src, c.Script, c.API, c.TokBuf, c.Bound)
+	if c.CloseFails {
+		k += "|closefails"
+	}
+	return k
 }
 
 type c11Obs struct {
@@ -158,6 +164,9 @@ func c11Exec(cs fw.Case) *fw.Fail {
 	var obs *c11Obs
 	body := func() {
 		o := &c11Obs{file: impl.NewScriptFile(c.Src, c.Script)}
+		if c.CloseFails {
+			o.file.CloseErr = errors.New("close failed: input/output error")
+		}
 		obs = o
 		out, log := &obsWriter{o: o}, &obsWriter{o: o}
 		switch c.API {
@@ -519,6 +528,9 @@ func init() {
 				{"eval 1; )\nprint 2; = 3\nvar a = 1; 5", []int{8, 9, 20}},
 				// more syntax errors than any "too many errors" limit, with input left after them
 				{strings.Repeat("print )\n", 40) + "print 1\nprint (", []int{8, 168, 330}},
+				// syntax errors on lines beyond 64 / 128, with more line ends arriving while they are reported
+				{strings.Repeat("\n", 70) + "print )\nprint )\n\n\nprint 1\n", []int{40, 75, 82}},
+				{strings.Repeat("\n", 130) + "print )\n\n\n\nprint )\n\n", []int{100, 135, 140}},
 			}
 			bound := 1
 			if c.Thorough() {
@@ -558,6 +570,9 @@ func init() {
 					}
 					for _, api := range apis {
 						for _, tb := range []int{0, 1, 2} {
+							if tb > 0 && strings.HasPrefix(in.src, "\n\n\n") {
+								continue // the many-lines inputs: the token buffer is not what they are about
+							}
 							if (api != "parse" || len(in.src) > 200) && tb != 0 {
 								continue
 							}
@@ -566,6 +581,10 @@ func init() {
 								b = 3
 							}
 							c.Do(subC11, &c11Case{Src: in.src, Script: sc, API: api, TokBuf: tb, Bound: b})
+							// an input whose Close reports an error: closed once all the same, nothing left behind
+							if tb == 0 && (api == "parse" || api == "interpret") && len(sc) <= 2 {
+								c.Do(subC11, &c11Case{Src: in.src, Script: sc, API: api, TokBuf: tb, Bound: bound, CloseFails: true})
+							}
 							// and ALL interleavings (no bound) with state-key pruning; in the quick tier only for
 							// the small harnesses (<=2 scripted answers, the plain ParseFile entry point)
 							if c.Thorough() || (len(sc) <= 2 && api == "parse" && len(in.src) <= 26) {
